@@ -3,12 +3,19 @@
 Decided statically: panic containment is installed around every RPC (both the synchronous call and the returned future);
 every path from an RPC handler to the write-ahead log goes through the backend mutators whose pre-log guards cover every
 rejection class of the index (so a refused item has no effect, live or after restart, on every write path); request
-validators refuse each invalid class before the engine is touched; every streaming / repeated-field RPC bounds its batch.
+validators refuse each invalid class before the engine is touched; every streaming / repeated-field RPC bounds its batch;
+the build keeps the two things the containment rests on that no MIR body shows: panics unwind (no panic=abort profile / rustflags) and
+prost keeps its decode recursion limit (the schema has self-containing filter messages).
 That the server "keeps serving" under resource exhaustion is not decided.
 """
+import glob
+import json
+import os
 import re
+import subprocess
+import tomllib
 
-from kvstatic import flow, rt, util, server
+from kvstatic import extract, flow, rt, util, server
 from kvstatic.effects import Effects
 from kvstatic.callgraph import sync_calls, callers_index
 from rules import C03
@@ -18,7 +25,8 @@ MANIFEST = {
             'inner.call in catch_unwind and the returned future in FutureExt::catch_unwind and is installed before add_service; the '
             'only callers of WalWriter::append* are the four backend mutators and the insert mutator checks DIM/FINITE/FULL/NORM '
             'before appending (engine-level funnel, so bulk paths are covered too); the request validators have one refusing guard '
-            'per invalid class, dominating the engine; five batch bounds. Necessary conditions; liveness under resource exhaustion is not decided.',
+            'per invalid class, dominating the engine; five batch bounds; build configuration: no panic=abort (catch_unwind would be void), prost without '
+            'no-recursion-limit (the nesting depth of MetadataFilter is otherwise unbounded). Necessary conditions; liveness under resource exhaustion is not decided.',
     'design_ref': 'DESIGN.md §4.15',
     'note': 'Trusted base: rustc MIR, the C03.R1 class table (shared code), guard normal forms.',
     'technique': 'dominance + guard-table checks + who-may-call over the call graph on MIR',
@@ -110,11 +118,109 @@ def _finite_closure(prog, pred):
     return False
 
 
+def _toml(path):
+    try:
+        with open(path, 'rb') as fh:
+            return tomllib.load(fh)
+    except (OSError, tomllib.TOMLDecodeError):
+        return None
+
+
+def build_configuration(root):
+    """Facts of the BUILD of the tree under check that no MIR body shows (the same files the extraction key covers: workspace manifest, member manifests,
+    .cargo/config.toml), read as TOML tables — not as text:
+      aborts    where the build selects panic=abort: [profile.*] of the workspace manifest / of .cargo/config.toml, or -C panic=abort in configured rustflags
+      manifests the manifests read (workspace root first)
+      dep_features(pkg)  [(manifest, where, features)] for every declaration of dependency `pkg` in those manifests, plus [features] entries that forward to it"""
+    rootm = _toml(os.path.join(root, 'Cargo.toml'))
+    manifests = [('Cargo.toml', rootm)] if rootm is not None else []
+    for pat in ((rootm or {}).get('workspace', {}).get('members') or []):
+        for d in sorted(glob.glob(os.path.join(root, pat))):
+            m = _toml(os.path.join(d, 'Cargo.toml'))
+            if m is not None and os.path.relpath(d, root) != '.':
+                manifests.append((os.path.join(os.path.relpath(d, root), 'Cargo.toml'), m))
+    cfgs = [(n, _toml(os.path.join(root, n))) for n in ('.cargo/config.toml', '.cargo/config')]
+    cfgs = [(n, c) for n, c in cfgs if c is not None]
+    aborts = []
+    for n, t in manifests[:1] + cfgs:      # cargo reads profiles from the workspace root manifest and from the configuration only
+        for prof, tab in sorted((t.get('profile') or {}).items()):
+            if isinstance(tab, dict) and tab.get('panic') == 'abort':
+                aborts.append('%s: [profile.%s] panic = "abort"' % (n, prof))
+    for n, t in cfgs:
+        flagsets = [('build', (t.get('build') or {}).get('rustflags'))] + [('target.' + k, v.get('rustflags')) for k, v in sorted((t.get('target') or {}).items()) if isinstance(v, dict)]
+        for where, fl in flagsets:
+            toks = fl.split() if isinstance(fl, str) else [str(x) for x in (fl or [])]
+            joined = ' '.join(toks).replace('-C ', '-C')
+            if re.search(r'-Cpanic=abort\b', joined):
+                aborts.append('%s: [%s] rustflags select -C panic=abort' % (n, where))
+
+    def dep_features(pkg):
+        out = []
+        for n, t in manifests:
+            tables = [('workspace.dependencies', (t.get('workspace') or {}).get('dependencies'))]
+            for kind in ('dependencies', 'dev-dependencies', 'build-dependencies'):
+                tables.append((kind, t.get(kind)))
+                for tg, tv in sorted((t.get('target') or {}).items()):
+                    if isinstance(tv, dict):
+                        tables.append(('target.%s.%s' % (tg, kind), tv.get(kind)))
+            for where, tab in tables:
+                for key, spec in sorted((tab or {}).items()):
+                    name = spec.get('package', key) if isinstance(spec, dict) else key
+                    if name == pkg:
+                        out.append((n, '[%s] %s' % (where, key), list(spec.get('features') or []) if isinstance(spec, dict) else []))
+            for feat, vals in sorted((t.get('features') or {}).items()):
+                fw = [v.split('/', 1)[1] for v in vals if isinstance(v, str) and re.match(r'^%s\??/' % re.escape(pkg), v)]
+                if fw:
+                    out.append((n, '[features] %s' % feat, fw))
+        return out
+    return {'aborts': aborts, 'manifests': [n for n, _ in manifests], 'configs': [n for n, _ in cfgs], 'dep_features': dep_features}
+
+
+def resolved_features(root, pkg):
+    """(features cargo's resolver enables for `pkg` with every workspace feature on, features `pkg` declares) from `cargo metadata` (offline, locked: reads only);
+    (None, None) when the resolver cannot be asked — the manifests then decide alone"""
+    env = dict(os.environ, CARGO_NET_OFFLINE='true')
+    for extra in (['--all-features'], []):
+        try:
+            r = subprocess.run(['cargo', 'metadata', '--offline', '--locked', '--format-version', '1', '--manifest-path', os.path.join(root, 'Cargo.toml')] + extra,
+                               env=env, stdout=subprocess.PIPE, stderr=subprocess.DEVNULL, text=True, timeout=120)
+            if r.returncode != 0:
+                continue
+            d = json.loads(r.stdout)
+        except (OSError, ValueError, subprocess.SubprocessError):
+            continue
+        ids = set(p_['id'] for p_ in d.get('packages', []) if p_.get('name') == pkg)
+        declared = set(f_ for p_ in d.get('packages', []) if p_.get('name') == pkg for f_ in (p_.get('features') or {}))
+        on = set(f_ for n_ in (d.get('resolve') or {}).get('nodes', []) if n_.get('id') in ids for f_ in n_.get('features', []))
+        if ids:
+            return on, declared
+    return None, None
+
+
+def recursive_messages(prog):
+    """request / response message types of the gRPC schema that (transitively) contain themselves: the depth of a decoded value of such a type is chosen by the client"""
+    ps = {k: v for k, v in prog.adts.items() if '::proto::' in k}
+    edges = {k: set(k2 for k2 in ps if any(re.search(r'(^|[<, (&])%s($|[>, )])' % re.escape(k2), f_['ty']) for vv in v['variants'] for f_ in vv['fields'])) for k, v in ps.items()}
+    rec = []
+    for k in sorted(ps):
+        seen, work = set(), list(edges[k])
+        while work:
+            x = work.pop()
+            if x in seen:
+                continue
+            seen.add(x)
+            work += list(edges.get(x, ()))
+        if k in seen:
+            rec.append(k)
+    return rec
+
+
 def run(ctx, prog):
     ctx.not_decided = ['liveness under memory / file-descriptor exhaustion', 'tonic / hyper internals (frame limits, decoding errors)']
     # ------------------------------------------------------------------ R1
     ctx.rule('C15.R1', 'containment: the gRPC server is built with .layer(GrpcPanicContainmentLayer) before add_service; the layer\'s call wraps '
-                       'inner.call in panic::catch_unwind and the returned future in FutureExt::catch_unwind, both Err arms answer with grpc_internal_panic_response')
+                       'inner.call in panic::catch_unwind and the returned future in FutureExt::catch_unwind, both Err arms answer with grpc_internal_panic_response; '
+                       'and the build lets panics unwind (no [profile.*] panic = "abort" in the workspace manifest or .cargo/config.toml, no -C panic=abort in configured rustflags)')
     m = server.main_body(ctx, 'C15.R1', 'TieredEngine::recover')
     mo = flow.Origin(m)
     adds = [c for c in m.calls if c.callee and c.is_('re:::add_service$')]
@@ -154,6 +260,15 @@ def run(ctx, prog):
         pr = ctx.body('C15.R1', 'kyrodb_server::grpc_internal_panic_response')
         ctx.inst('C15.R1', pr.short, 'panic response is a well-formed gRPC status', any('Status::internal' in (c.callee or '') or 'Status::new' in (c.callee or '') or 'to_http' in (c.callee or '') or 'into_http' in (c.callee or '') for c in pr.calls), '')
 
+    # catch_unwind contains a panic only when panics unwind: with panic=abort both catch_unwind calls above are dead code and the first panicking handler ends the
+    # process — no later request gets an answer.  The panic strategy is a fact of the build configuration, not of any MIR body
+    bc = build_configuration(extract.repo_root())
+    if not bc['manifests']:
+        ctx.missing('C15.R1', 'workspace manifest Cargo.toml (build profiles)')
+    else:
+        ctx.inst('C15.R1', 'build configuration', 'panics unwind: no profile and no configured rustflags select panic=abort', not bc['aborts'],
+                 ('%s — catch_unwind cannot contain a panic in a build that aborts on panic: the containment layer is void and a panicking handler takes the server down' % '; '.join(bc['aborts'])[:300])
+                 if bc['aborts'] else 'read %s: no [profile.*] panic = "abort", no -C panic=abort' % ', '.join(bc['manifests'][:1] + bc['configs']))
     # ------------------------------------------------------------------ R2
     ctx.rule('C15.R2', 'validator before the log on every write path: WalWriter::append* is called only by the four backend mutators; '
                        'HnswBackend::insert refuses wrong dimension, non-finite, full and un-normalisable vectors before the append (engine-level '
@@ -584,4 +699,32 @@ def run(ctx, prog):
             if okb:
                 break
         ctx.inst('C15.R4', 'rpc ' + h, 'batch size bounded before the engine', okb, det)
+    # ------------------------------------------------------------------ R5 nesting depth of a request is bounded by the decoder
+    ctx.rule('C15.R5', 'decode depth: the request schema has message types that contain themselves (MetadataFilter through And / Or / Not), so the nesting depth of a request '
+                       'is chosen by the client; the generated decoder recurses once per level (and so do the consumers of the decoded value: matching, compilation to '
+                       'bitmaps, oversampling estimate). The only bound is prost\'s decode recursion limit (100 levels, refusal = a decode error answered with a status): '
+                       'prost must be built WITHOUT its `no-recursion-limit` feature — in no workspace manifest and not in the resolved feature set. Without the limit a '
+                       'filter nested a few hundred thousand levels deep (it fits the message size limit) overflows the stack of the worker thread: an abort that no '
+                       'catch_unwind contains, after which no request is answered')
+    rec = recursive_messages(prog)
+    FEAT = 'no-recursion-limit'
+    decl = bc['dep_features']('prost') if bc['manifests'] else []
+    enabled = ['%s %s' % (n_, w_) for n_, w_, fs_ in decl if FEAT in fs_]
+    on, declared = resolved_features(extract.repo_root(), 'prost')
+    if on is not None and FEAT in on:
+        enabled.append('cargo\'s resolver (all workspace features on)')
+    if not bc['manifests'] or not [x for x in decl if not x[1].startswith('[features]')]:
+        ctx.missing('C15.R5', 'declaration of the prost dependency in the workspace manifests')
+    else:
+        ctx.inst('C15.R5', 'build configuration', 'prost keeps its decode recursion limit (feature no-recursion-limit is off)', not rec or not enabled,
+                 ('recursive message types: %s; `%s` enabled by %s — nothing bounds the nesting depth of a decoded filter any more' % (
+                     ', '.join(flow.short(x) for x in rec)[:120], FEAT, '; '.join(enabled)[:200])) if (rec and enabled) else
+                 'recursive message types: %s; prost declared in %s with features %s; resolved features: %s' % (
+                     ', '.join(flow.short(x) for x in rec)[:120] or 'none', ', '.join(sorted(set(n_ for n_, _, _ in decl))), sorted(set(f_ for _, _, fs_ in decl for f_ in fs_)),
+                     sorted(on) if on is not None else 'resolver not available, manifests decide'))
+        if declared is not None:
+            # positive control: the feature the rule looks for exists under this name in the prost version the lock file pins
+            ctx.inst('C15.R5', 'build configuration', 'positive control: the pinned prost declares the feature this rule looks for', FEAT in declared,
+                     'features declared by prost: %s' % sorted(declared), nontrivial=False)
+    ctx.floor('C15.R5', 'message types of the schema that contain themselves', len(rec), 1, 'MetadataFilter, And / Or / Not filter, the oneof')
     ctx.stat('functions_analysed', len(set(i['key'].split(' | ')[1] for i in ctx.instances)))
